@@ -359,6 +359,9 @@ func (f *Frame) enterLoop(b *ssa.BasicBlock, li *loopInfo, st *State, g string, 
 	li.mutexHeaps = nil
 	if f.top && f.mods != nil {
 		for _, h := range writes {
+			if strings.HasPrefix(h, "G$") {
+				continue
+			}
 			ff := f.frameFact(h, f.mods, f.entry, st, f.entry.alloc)
 			f.oblige("inv.init", f.oblName(fmt.Sprintf("%s:inv%d#frame[%s].init", fname, li.ordinal, h)), g, ff, "loop frame: only locations in the modifies clause change in heap "+h, nil, token.NoPos)
 		}
@@ -397,6 +400,19 @@ func (f *Frame) enterLoop(b *ssa.BasicBlock, li *loopInfo, st *State, g string, 
 	na := e.freshConst("alloc", "Int")
 	e.assume(app("<=", st.alloc, na))
 	ns.alloc = na
+	if f.callerF == nil {
+		// exited(N) flags: this loop has not been left yet; what the loops nested in it did in earlier iterations is unknown
+		if _, used := e.heapSort[fmt.Sprintf("G$exited$%d", li.ordinal)]; used {
+			ns.heap[e.exitedHeap(li.ordinal)] = "false"
+		}
+		for hb, l2 := range f.loops {
+			if l2 != li && li.body[hb] {
+				if _, used := e.heapSort[fmt.Sprintf("G$exited$%d", l2.ordinal)]; used {
+					ns.heap[e.exitedHeap(l2.ordinal)] = e.freshConst(fmt.Sprintf("G$exited$%d", l2.ordinal), "Bool")
+				}
+			}
+		}
+	}
 	for r := range st.iters {
 		if f.iterInLoop(r, li) {
 			c := e.freshConst("iter", sortOfTerm(e, r))
@@ -493,6 +509,9 @@ func (f *Frame) closeLoop(from, header *ssa.BasicBlock, st *State) {
 	eg := f.edge[[2]int{from.Index, header.Index}]
 	if f.top && f.mods != nil {
 		for _, h := range f.loopWrites(li) {
+			if strings.HasPrefix(h, "G$") {
+				continue
+			}
 			ff := f.frameFact(h, f.mods, f.entry, st, f.entry.alloc)
 			f.oblige("inv.keep", f.oblName(fmt.Sprintf("%s:inv%d#frame[%s].keep", funcDisplay(f.fn), li.ordinal, h)), eg, ff, "loop frame: only locations in the modifies clause change in heap "+h, nil, token.NoPos)
 		}
